@@ -64,7 +64,7 @@ PURE_METHODS = NOISE_METHODS | {
 }
 
 
-OPTION_METHODS = {"is_some", "is_none", "is_ok", "is_err", "unwrap_or", "unwrap_or_else", "unwrap_or_default", "map_or", "map_or_else", "is_some_and", "is_ok_and", "is_none_or", "map", "and_then"}
+OPTION_METHODS = {"ok_or", "ok_or_else", "is_some", "is_none", "is_ok", "is_err", "unwrap_or", "unwrap_or_else", "unwrap_or_default", "map_or", "map_or_else", "is_some_and", "is_ok_and", "is_none_or", "map", "and_then"}
 # name -> 'Option' | 'Result' for the crates' own functions whose declared return type is one (set by lib.ast.Ast)
 RET_FAMILY = {}
 
@@ -850,6 +850,8 @@ class Run:
             try:
                 return self.eval(e["body"], cenv)
             except _Return as r:
+                if r.v == ("unk", "!"):
+                    raise  # a panic inside the closure ends the whole path, not just the closure
                 return r.v
         finally:
             self.depth -= 1
@@ -1024,6 +1026,13 @@ class Run:
         return self.e_Loop({"k": "Loop", "body": body, "label": e.get("label")}, env)
 
     _stage_n = 0
+
+    ITER_SOURCES = {"iter", "iter_mut", "into_iter", "chars", "bytes", "char_indices", "rev", "enumerate", "chain", "drain", "values", "keys", "lines", "split", "skip", "take", "zip",
+                    "filter", "map", "filter_map", "cloned", "copied", "peekable", "windows", "chunks"}
+
+    def _iterish(self, ex):
+        """is the receiver syntactically an iterator (a chain that starts at .iter() / .chars() / ...)"""
+        return ex.get("k") == "MethodCall" and ex["m"] in self.ITER_SOURCES
 
     def _peel_stages(self, ex):
         """`SRC.filter(c).map(f).filter_map(g)` -> (SRC, [(kind, closure ast)...]) for the adaptors given as closure literals"""
@@ -1214,6 +1223,9 @@ class Run:
         if p in env and isinstance(env[p], tuple) and env[p][0] == "closure":
             args = [self.eval(a, env) for a in e["args"]]
             return self.apply_closure(env[p], args)
+        if p in env and isinstance(env[p], tuple) and env[p][0] == "unk" and re.fullmatch(r"[A-Za-z_][A-Za-z0-9_]*(::[A-Za-z_][A-Za-z0-9_]*)*", env[p][1]) and env[p][1] != p:
+            # a local that holds a function (`let f: fn(..) = if c { g } else { h }; f(x)`): call what it holds
+            return self.e_Call(dict(e, f=dict(f, path=env[p][1])), env)
         last = p.split("::")[-1]
         if last[:1].isupper() and not last.isupper() and p not in self.cfg.inline:
             args = tuple(self.eval(a, env) for a in e["args"])
@@ -1383,6 +1395,11 @@ class Run:
         if m in ("is_ok", "is_err") and n == 0:
             ok, _ = self.present(recv, "Result")
             return ok if m == "is_ok" else not ok
+        if m in ("ok_or", "ok_or_else") and n == 1 and (fam == "Option" or (isinstance(recv, tuple) and recv[0] == "ctor" and recv[1] in ("Some", "None"))):
+            ok, pay = self.present(recv, "Option")
+            if ok:
+                return ("ctor", "Ok", (pay,))
+            return ("ctor", "Err", (args[0] if m == "ok_or" else self.call_value(args[0], []),))
         if m in ("unwrap_or", "unwrap_or_else", "unwrap_or_default", "map_or", "map_or_else", "is_some_and", "is_ok_and", "is_none_or") or (m in ("map", "and_then") and fam is not None and n == 1):
             fam = fam or ("Result" if m == "is_ok_and" else "Option")
             ok, pay = self.present(recv, fam)
@@ -1412,6 +1429,56 @@ class Run:
 
     def e_MethodCall(self, e, env):
         m = e["m"]
+        if m in ("find_map", "find") and len(e["args"]) == 1 and e["args"][0].get("k") == "Closure" and len(e["args"][0].get("params", [])) == 1 \
+                and self.cfg.generic_loops and e["recv"].get("k") in ("MethodCall", "Path", "Field") and self._iterish(e["recv"]):
+            # a searching terminal is the loop it stands for: `SRC.find_map(f)` is
+            # `{ let mut r = None; for it in SRC { if let Some(v) = f(it) { r = Some(v); break } } r }`, and likewise find / any / all
+            def path(n):
+                return {"k": "Path", "path": n, "generics": None, "qself": None}
+
+            def ident(n, mut=False):
+                return {"k": "PIdent", "name": n, "sub": None, "byref": False, "mut": mut}
+
+            def lit(b):
+                return {"k": "Lit", "t": "bool", "v": b}
+            src, stages = self._peel_stages(e["recv"])
+            Run._stage_n += 1
+            k = Run._stage_n
+            first, res, fn = "__it%d" % k, "__res%d" % k, "__term%d" % k
+            env2 = dict(env)
+            stmts, last = self._stage_stmts(stages, env2, first)
+            env2[fn] = self.eval(e["args"][0], env2)
+            call = {"k": "Call", "f": path(fn), "args": [path(last)]}
+            brk = {"k": "ExprStmt", "e": {"k": "Break", "label": None, "e": None}, "semi": True}
+
+            def assign(v):
+                return {"k": "ExprStmt", "e": {"k": "Assign", "lhs": path(res), "rhs": v}, "semi": True}
+            some = lambda x: {"k": "Call", "f": path("Some"), "args": [x]}
+            if m == "find_map":
+                init = path("None")
+                body = [{"k": "ExprStmt", "e": {"k": "If", "cond": {"k": "LetCond", "pat": {"k": "PTupleStruct", "path": "Some", "elems": [ident("__v")]}, "e": call},
+                                                "then": [assign(some(path("__v"))), brk], "else": None}, "semi": False}]
+            elif m == "find":
+                init = path("None")
+                body = [{"k": "ExprStmt", "e": {"k": "If", "cond": call, "then": [assign(some(path(last))), brk], "else": None}, "semi": False}]
+            elif m == "any":
+                init = lit(False)
+                body = [{"k": "ExprStmt", "e": {"k": "If", "cond": call, "then": [assign(lit(True)), brk], "else": None}, "semi": False}]
+            elif m == "all":
+                init = lit(True)
+                body = [{"k": "ExprStmt", "e": {"k": "If", "cond": {"k": "Unary", "op": "!", "e": call}, "then": [assign(lit(False)), brk], "else": None}, "semi": False}]
+            else:
+                init = None
+            if init is not None:
+                loop = {"k": "For", "pat": ident(first), "iter": src, "body": stmts + body, "label": None}
+                blk = [{"k": "Let", "pat": ident(res, True), "init": init, "else": None}, {"k": "ExprStmt", "e": loop, "semi": True}, {"k": "ExprStmt", "e": path(res), "semi": False}]
+                r = self.block(blk, env2)
+                for k2 in list(env.keys()):
+                    if k2 in env2:
+                        env[k2] = env2[k2]
+                if m in ("find_map", "find"):
+                    self.varfam["__last_terminal"] = "Option"
+                return r
         if m == "collect" and not e["args"] and self.cfg.generic_loops and e["recv"].get("k") == "MethodCall":
             src, stages = self._peel_stages(e["recv"])
             if stages:
@@ -1531,6 +1598,8 @@ class Run:
             try:
                 return self.block(item["body"], env)
             except _Return as r:
+                if r.v == ("unk", "!"):
+                    raise  # a panic inside an inlined helper ends the whole path
                 return r.v
         finally:
             self.depth -= 1
